@@ -74,6 +74,18 @@ def judge(ctx, rows, module="C07Trace", canary_fn=canary):
 def run(ctx):
     drv = vlib.build_harness(ctx)
     rng = random.Random(ctx.seed)
+    if ctx.replay and "files" in json.load(open(ctx.replay))["case"]:
+        # a DefaultCycle.tla program: judged by the outcome the model computed
+        rep = json.load(open(ctx.replay))
+        dcases = [{"id": "replay", "files": rep["case"]["files"], "nonstrict": False}]
+        drows, dcrashes = vlib.run_driver_batches(ctx, drv, "c08", dcases, batch=20, timeout=600)
+        for case, how, out in dcrashes:
+            vlib.report_failure(ctx, case, {"failed": ["process-died:" + how], "output": out[:700]}, case=case)
+        ctx.evals = len(drows)
+        dbad, _ = vlib.validate_trace(ctx, "C08Trace", drows, cfg="C08Trace_strict.cfg", shard=4000, timeout=600)
+        for row, why in dbad:
+            vlib.report_failure(ctx, row, {"failed": why, "files": row["files"], "cerr": row["cerr"][:200]}, case={"files": row["files"]})
+        return vlib.finish(ctx, "replay of one DefaultCycle program", exhaustive=False)
     if ctx.replay:
         rep = json.load(open(ctx.replay))
         cases = [{"id": "replay", "prog": rep["case"]["prog"], "order": rep["case"]["order"]}]
@@ -87,6 +99,20 @@ def run(ctx):
         vlib.report_failure(ctx, case, {"failed": ["process-died:" + how], "output": out[:700]}, case=case)
     ctx.evals = len(rows)
     judge(ctx, rows)
+    if not ctx.replay:
+        # field defaults written in terms of the enclosing struct (DefaultCycle.tla): accepted exactly when no literal leaves the
+        # field out -- the meaning does not depend on what else was linked before (other defaulted fields, earlier literals)
+        import c08
+        dcases = [c for c in c08.default_cycle_cases(ctx, rng) if "#expect" in c["files"]]
+        drows, dcrashes = vlib.run_driver_batches(ctx, drv, "c08", dcases, batch=max(20, len(dcases) // 32 + 1), timeout=1500)
+        for case, how, out in dcrashes:
+            vlib.report_failure(ctx, case, {"failed": ["process-died:" + how], "output": out[:700]}, case=case)
+        ctx.evals += len(drows)
+        dbad, _ = vlib.validate_trace(ctx, "C08Trace", drows, cfg="C08Trace_strict.cfg", shard=4000, timeout=1800,
+                                      canary=lambda row, r: (dict(row, cok=not row["cok"], cerr="" if not row["cok"] else "boom") if row.get("op") == "c08" else None))
+        for row, why in dbad:
+            vlib.report_failure(ctx, row, {"failed": why, "id": row.get("id"), "files": row["files"], "cerr": row["cerr"][:200]}, case={"files": row["files"]})
+        ctx.cov["default_cycle_programs"] = len(drows)
     ctx.cov["distinct_nontrivial"] = vlib.distinct_count(rows, lambda r: (r["prog"], r["order"]))
     ctx.cov["programs"] = vlib.distinct_count(rows, lambda r: r["prog"])
     ctx.cov["compiled_ok"] = sum(1 for r in rows if r["ok"])
